@@ -57,9 +57,9 @@ Proof.
   rewrite (b16decode_word le d Hd). reflexivity.
 Qed.
 
-Theorem addr_roundtrip le ip port :
+Theorem addr_roundtrip le o ip port :
   wf_ip ip = true -> wf_port port = true ->
-  decode_address le (k_addr le ip port) (if is_v6 ip then AF_INET6 else AF_INET) = Val (spec_addr ip port).
+  decode_address le o (k_addr le ip port) (if is_v6 ip then AF_INET6 else AF_INET) = addr_res o ip port.
 Proof.
   intros Hip Hport. unfold decode_address, k_addr.
   assert (Hc : contains 58 (k_ip le ip) = false) by (apply hexs_contains; [reflexivity|apply k_ip_hex]).
@@ -68,7 +68,7 @@ Proof.
   rewrite parse_hex_hexw by discriminate.
   assert (Hp : port mod 16 ^ Z.of_nat 4 = port).
   { change (16 ^ Z.of_nat 4) with 65536. unfold wf_port in Hport. apply Z.mod_small. lia. }
-  rewrite Hp. cbn [of_option obind]. unfold spec_addr.
+  rewrite Hp. cbn [of_option obind]. unfold addr_res.
   destruct (port =? 0); [reflexivity|].
   destruct ip as [q|a b c d].
   - cbn [is_v6 k_ip wf_ip] in *. rewrite (b16decode_word le q Hip). cbn [of_option obind].
@@ -83,16 +83,28 @@ Proof.
     apply wf_quad_range in Ha as (? & ? & ? & ?). apply wf_quad_range in Hb as (? & ? & ? & ?).
     apply wf_quad_range in Hcc as (? & ? & ? & ?). apply wf_quad_range in Hd as (? & ? & ? & ?).
     cbn [quad_bytes ip_bytes rev app]. destruct le.
-    + cbn [unpack_le4 words_le flat_map app].
+    + cbn [unpack_le4 words_le flat_map app andb].
+      destruct (o_ntop6 o); [|reflexivity]. cbn [negb].
       rewrite !pack_be_word by assumption. reflexivity.
-    + cbn [unpack_le4 words_le flat_map app].
+    + cbn [unpack_le4 words_le flat_map app andb].
+      destruct (o_ntop6 o); [|reflexivity]. cbn [negb].
       rewrite !pack_le_word by assumption. reflexivity.
 Qed.
 
+(* when IPv6 can be formatted (or the address is IPv4) the answer is the demanded address *)
+Corollary addr_roundtrip_ok le o ip port :
+  wf_ip ip = true -> wf_port port = true -> o_ntop6 o = true \/ is_v6 ip = false ->
+  decode_address le o (k_addr le ip port) (if is_v6 ip then AF_INET6 else AF_INET) = Val (DAddr (spec_addr ip port)).
+Proof.
+  intros Hip Hport Ho. rewrite addr_roundtrip by assumption. unfold addr_res, spec_addr.
+  destruct (port =? 0); [reflexivity|].
+  destruct Ho as [Ho|Ho]; rewrite Ho; [now rewrite andb_false_r|reflexivity].
+Qed.
+
 (* port 0: the empty tuple, whatever the address *)
-Corollary addr_port0 le ip :
+Corollary addr_port0 le o ip :
   wf_ip ip = true ->
-  decode_address le (k_addr le ip 0) (if is_v6 ip then AF_INET6 else AF_INET) = Val ANone.
+  decode_address le o (k_addr le ip 0) (if is_v6 ip then AF_INET6 else AF_INET) = Val (DAddr ANone).
 Proof. intros H. now rewrite addr_roundtrip. Qed.
 
 (* tokens *)
